@@ -1,6 +1,6 @@
 CONSTANTS
-  Kind = "m"
-  MaxE = 3
+  Kind = "x"
+  MaxE = 4
   MaxUR = 3
   MaxF = 0
   UseStop = TRUE
